@@ -6,22 +6,11 @@
   splits of the two runs.  (The wiring itself — that `to_disp` receives the volume `compute_cost_volume`
   returned — is C08's subject; here the composed function is the composition of the two models.)
 -/
+import PandoraModel.Model.PipelineRun
 import PandoraModel.Properties.C13MatchingCost
 
 namespace Pandora.C13
 open Pandora Pandora.Locality Pandora.MC
-
-/-- the input of the disparity step made of the cost volume of the matching-cost model (`ev`: the float
-    value of a cost cell) -/
-def wtaOfMc (x : MC.Input) (ev : MC.Cell → Val) (isMax : Bool) (disps : List Rat) (invalid : Val) : Wta.Input where
-  rows := x.L.rows
-  cols := x.L.cols
-  isMax := isMax
-  disps := disps
-  cv := fun r c =>
-    (List.range (nDisp (gridMin x.dminG x.L.rows x.L.cols) (gridMax x.dmaxG x.L.rows x.L.cols) x.sp)).map
-      fun j => ev (costVolume x r c j)
-  invalid := invalid
 
 /-- **Matching cost then winner-takes-all: crop run = whole run.**  `x'` is the crop of the scene of `x`
     starting at `(r0, c0)` with the same configuration and the same global disparity range (a scalar
